@@ -147,15 +147,25 @@ def body(chk):
                             continue                        # registry object itself (pointer + map header)
                         if p['st'].regions[x[0]].kind == 'entry':
                             continue                        # value slot of the re-initialised entry
+                        if not p['st'].regions[x[0]].alive:
+                            continue                        # the replaced instance: written by its own destructor, then freed
                         ok = False                          # any store into a pre-existing solution object or the other registry
                     if not ok:
                         bad.append(pc_term(p['pc']))
                 chk.paths_clean('init%s:%s:fresh-default-instance-mapped-and-selected' % (tag, n), bad, family='init',
                                 sample=dict(obligation='masa_init(H,%s)' % n, paths=len(paths)),
-                                replay=replay_script(chk, scalar, ['masa_init<Scalar>("a","%s"); masa_init<Scalar>("b","euler_2d"); masa_set_param<Scalar>("L",(Scalar)9.5);' % n,
-                                                                   'masa_init<Scalar>("b","euler_2d"); printf("\\nR fresh %d\\n", masa_get_param<Scalar>("L")!=(Scalar)9.5);',
-                                                                   'std::string s; masa_select_mms<Scalar>("a"); masa_get_name<Scalar>(&s); printf("R a %s\\n", s.c_str());'],
-                                                     ['R fresh 1', 'R a %s' % n], 're-initialisation of a handle'))
+                                replay=replay_script(chk, scalar, [
+                                    # (i) re-initialise the SELECTED handle: fresh defaults
+                                    'masa_init<Scalar>("a","%s"); masa_init<Scalar>("b","euler_2d"); masa_set_param<Scalar>("L",(Scalar)9.5);' % n,
+                                    'masa_init<Scalar>("b","euler_2d"); printf("\\nR fresh %d\\n", masa_get_param<Scalar>("L")!=(Scalar)9.5);',
+                                    'std::string s; masa_select_mms<Scalar>("a"); masa_get_name<Scalar>(&s); printf("R a %s\\n", s.c_str());',
+                                    # (ii) re-initialise a handle that is NOT selected: it becomes the selected one, the other handle is untouched
+                                    'masa_select_mms<Scalar>("b"); masa_set_param<Scalar>("L",(Scalar)7.25); masa_init<Scalar>("a","euler_3d");',
+                                    'masa_get_name<Scalar>(&s); printf("R reinit_selects %s\\n", s.c_str()); masa_set_param<Scalar>("L",(Scalar)3.125);',
+                                    'masa_select_mms<Scalar>("b"); printf("R b_untouched %d\\n", masa_get_param<Scalar>("L")==(Scalar)7.25); masa_get_name<Scalar>(&s); printf("R b %s\\n", s.c_str());',
+                                    # (iii) a brand-new handle becomes selected
+                                    'masa_init<Scalar>("c","heateq_1d_steady_const"); masa_get_name<Scalar>(&s); printf("R new_selected %s\\n", s.c_str());'],
+                                    ['R fresh 1', 'R a %s' % n, 'R reinit_selects euler_3d', 'R b_untouched 1', 'R b euler_2d', 'R new_selected heateq_1d_steady_const'], 're-initialisation of a handle'))
         # ---- the two registries are independent: <scalar> operations never touch the other registry or its objects
         st, handles, objs = R.build(w, scalar, ['euler_1d'], symbolic=True)
         sto = st
